@@ -161,7 +161,7 @@ func (f *frame) invokeStatic(n *node, callee *ssa.Function, args []Val, binds []
 		return r, true
 	}
 	if inRepo(callee) || callee.Parent() != nil && inRepo(callee.Parent()) {
-		if c := x.w.contractFor(callee); c != nil && !c.Inline && !f.spec && !x.inSpec() && !x.w.isSpecFunc(callee) && !x.inlineCall(c) {
+		if c := x.w.contractFor(callee); c != nil && !c.Inline && ((!f.spec && !x.inSpec()) || x.tolerant) && !x.w.isSpecFunc(callee) && !x.inlineCall(c) {
 			return f.applyContract(n, c, callee, args, pos), true
 		}
 		if len(callee.Blocks) > 0 && !x.noInline {
@@ -298,10 +298,16 @@ func (f *frame) applyContract(n *node, c *Contract, callee *ssa.Function, args [
 	pre := n.heap.clone()
 	for _, r := range c.Requires {
 		t := x.evalClause(f, r, n.heap, pre, args, nil, nil)
-		x.oblige("pre", fmt.Sprintf("%s.requires%d", c.FuncID, r.N), mergeProps(r.Props, x.safeProps), and(n.reach, not(t)), f.fn, pos)
+		if !x.tolerant {
+			x.oblige("pre", fmt.Sprintf("%s.requires%d", c.FuncID, r.N), mergeProps(r.Props, x.safeProps), and(n.reach, not(t)), f.fn, pos)
+		}
 		n.reach = x.g.Fresh(SortBool, and(n.reach, t))
 	}
 	// frame: havoc what the callee may modify
+	if c.ModAll {
+		nh, _ := x.havocAll(n.heap, true)
+		n.heap = nh
+	}
 	if len(c.Modifies) > 0 {
 		locs := x.evalModifies(f, c, n.heap, args)
 		for _, l := range locs {
